@@ -99,10 +99,19 @@ Definition w_blind_delete_v2 : list act :=
   start_v2 0 ++ fail_v1 0 CaFatal ++ clean 0 1 ++ start_v2 1 ++ clean 0 3.
 
 Lemma blind_delete_v2 :
-  match final (cfg_v2 true) w_blind_delete_v2 with
+  match final (cfg_v2_shipped true) w_blind_delete_v2 with
   | Some s => quiescent s && status_eqb (s_status s) Running && onat_eqb (s_map s) None
               && onat_eqb (s_cur s) (Some 1) && is_live (s_runs s 1)
               && negb (running_map_ok s) && negb (agrees s)
+  | None => false
+  end = true.
+Proof. vm_compute. reflexivity. Qed.
+
+(* repaired (838f9f1, compare-and-delete): the same schedule leaves run 1's entry in place *)
+Lemma blind_delete_repaired_v2 :
+  match final (cfg_v2 true) w_blind_delete_v2 with
+  | Some s => quiescent s && status_eqb (s_status s) Running && onat_eqb (s_map s) (Some 1)
+              && running_map_ok s && agrees s
   | None => false
   end = true.
 Proof. vm_compute. reflexivity. Qed.
@@ -115,7 +124,7 @@ Fixpoint has_label (l : label -> bool) (ls : list label) : bool :=
   match ls with [] => false | x :: t => l x || has_label l t end.
 
 Lemma blind_delete_calls_v2 :
-  match trace (cfg_v2 true) init w_blind_delete_calls_v2 with
+  match trace (cfg_v2_shipped true) init w_blind_delete_calls_v2 with
   | Some (ls, s) =>
       is_live (s_runs s 1) && status_eqb (s_status s) Running
       && has_label (fun l => match l with LRet 2 RetNotRunning => true | _ => false end) ls
@@ -128,7 +137,7 @@ Proof. vm_compute. reflexivity. Qed.
    the connector guard stays taken, every later Start is refused *)
 Definition w_dlq_open_leak_v2 : list act := [ACall KStart 0] ++ user 5 ++ [AUser 1; AUser 0].
 Lemma dlq_open_leak_v2 :
-  match final (cfg_v2 false) w_dlq_open_leak_v2 with
+  match final (cfg_v2_shipped false) w_dlq_open_leak_v2 with
   | Some s => quiescent s && match live_runs s with [] => true | _ => false end && negb (guards_free s)
   | None => false
   end = true.
@@ -136,8 +145,20 @@ Proof. vm_compute. reflexivity. Qed.
 
 Definition w_dlq_open_leak_restart_v2 : list act := w_dlq_open_leak_v2 ++ [ACall KStart 1] ++ user 3.
 Lemma dlq_open_leak_refuses_start_v2 :
-  match trace (cfg_v2 false) init w_dlq_open_leak_restart_v2 with
+  match trace (cfg_v2_shipped false) init w_dlq_open_leak_restart_v2 with
   | Some (ls, _) => has_label (fun l => match l with LRet 1 RetErr => true | _ => false end) ls
+  | None => false
+  end = true.
+Proof. vm_compute. reflexivity. Qed.
+
+(* repaired (6946e0c): the rollback tears the source down (one more step of the Start), the guards are free and
+   the next Start is admitted *)
+Definition w_dlq_open_fail_v2 : list act := [ACall KStart 0] ++ user 5 ++ [AUser 1; AUser 0; AUser 0].
+Lemma dlq_open_fail_repaired_v2 :
+  match trace (cfg_v2 false) init (w_dlq_open_fail_v2 ++ start_v2 1) with
+  | Some (ls, s) => quiescent s && guards_free (match final (cfg_v2 false) w_dlq_open_fail_v2 with Some s0 => s0 | None => s end)
+                    && has_label (fun l => match l with LRet 1 RetNil => true | _ => false end) ls
+                    && has_label (fun l => match l with LTd => true | _ => false end) ls
   | None => false
   end = true.
 Proof. vm_compute. reflexivity. Qed.
@@ -145,8 +166,16 @@ Proof. vm_compute. reflexivity. Qed.
 (* v2: a processor whose Open fails keeps its running flag *)
 Definition w_proc_open_leak_v2 : list act := [ACall KStart 0] ++ user 3 ++ [AUser 1; AUser 0].
 Lemma proc_open_leak_v2 :
-  match final (cfg_v2 true) w_proc_open_leak_v2 with
+  match final (cfg_v2_shipped true) w_proc_open_leak_v2 with
   | Some s => quiescent s && match live_runs s with [] => true | _ => false end && negb (guards_free s)
+  | None => false
+  end = true.
+Proof. vm_compute. reflexivity. Qed.
+
+(* repaired (7f15ba5): the failed Open tears the processor down *)
+Lemma proc_open_fail_repaired_v2 :
+  match final (cfg_v2 true) w_proc_open_leak_v2 with
+  | Some s => quiescent s && match live_runs s with [] => true | _ => false end && guards_free s
   | None => false
   end = true.
 Proof. vm_compute. reflexivity. Qed.
@@ -195,12 +224,35 @@ Proof. vm_compute. reflexivity. Qed.
 Definition w_late_kill_v1 : list act :=
   start_v1 0 ++ [AOpen 0; AInject 0 CaTransient; AKill 0 CaTransient; ATd 0; AEnd 0; AClean 0 1] ++ clean 0 3.
 Lemma failure_reported_as_user_stopped_v1 :
-  match trace (cfg_v1 false) init w_late_kill_v1 with
+  match trace (cfg_v1_shipped false) init w_late_kill_v1 with
   | Some (ls, s) =>
       status_eqb (s_status s) UserStopped
       && negb (has_label (fun l => match l with LCall KStart 0 => false | LCall _ _ => true | _ => false end) ls)
       && has_label (fun l => match l with LInj CaTransient => true | _ => false end) ls
       && negb (has_label (fun l => match l with LStatus Recovering | LStatus Degraded => true | _ => false end) ls)
+  | None => false
+  end = true.
+Proof. vm_compute. reflexivity. Qed.
+
+(* repaired (2f2ec4f): the node Kills the tomb before Done; whatever the cleanup's choice, the run recovers *)
+Lemma failure_recovers_repaired_v1 :
+  match trace (cfg_v1 false) init (start_v1 0 ++ [AOpen 0; AInject 0 CaTransient; AKill 0 CaTransient; ATd 0; AEnd 0; AClean 0 1]) with
+  | Some (_, s) => status_eqb (s_status s) Recovering
+  | None => false
+  end = true.
+Proof. vm_compute. reflexivity. Qed.
+
+(* v2: a force stop that loses the tomb's first-reason race (a transient error was recorded first) was
+   restarted by the recovery; repaired (9382932): the force path also marks the run as intentionally stopped *)
+Definition w_force_loses_race_v2 : list act :=
+  start_v2 0 ++ [AInject 0 CaTransient; AKill 0 CaTransient; ACall KForce 1] ++ user 4 ++ [ATd 0; AEnd 0] ++ clean 0 11.
+Lemma force_loses_race_restarts_shipped_v2 : refutes_stop (cfg_v2_shipped false) w_force_loses_race_v2 = true.
+Proof. vm_compute. reflexivity. Qed.
+Definition w_force_loses_race_repaired_v2 : list act :=
+  start_v2 0 ++ [AInject 0 CaTransient; AKill 0 CaTransient; ACall KForce 1] ++ user 4 ++ [ATd 0; AEnd 0] ++ clean 0 4.
+Lemma force_loses_race_stops_repaired_v2 :
+  match trace (cfg_v2 false) init w_force_loses_race_repaired_v2 with
+  | Some (ls, s) => negb (restart_after_stop ls) && status_eqb (s_status s) UserStopped && quiescent s
   | None => false
   end = true.
 Proof. vm_compute. reflexivity. Qed.
